@@ -76,6 +76,12 @@ func init() {
 			plan.ExitAt = n
 		}
 	}
+	if s := os.Getenv("VERIF_READ_FAIL_AT"); s != "" {
+		if n, err := strconv.Atoi(s); err == nil {
+			readFailAt = n
+			readFailAnnounce = true
+		}
+	}
 	if s := os.Getenv("VERIF_FAIL_AT"); s != "" {
 		if n, err := strconv.Atoi(s); err == nil {
 			plan.FailAt = n
@@ -118,8 +124,11 @@ func BeforeWrite(kind string) error {
 
 var (
 	readFailAt int
-	reads      int
-	readHit    bool
+	// readFailAnnounce: the failure was asked for through the environment of a
+	// subprocess, which says on stderr when it injects it
+	readFailAnnounce bool
+	reads            int
+	readHit          bool
 )
 
 // SetReadPlan makes the n-th object read (1-based) fail once and resets the read
@@ -145,6 +154,9 @@ func BeforeRead(kind string) error {
 	reads++
 	if readFailAt > 0 && reads == readFailAt {
 		readHit = true
+		if readFailAnnounce {
+			fmt.Fprintln(os.Stderr, "verifhook: injected object read failure")
+		}
 		return ErrInjected
 	}
 	return nil
